@@ -216,10 +216,11 @@ def gen_func(rng, max_blocks=4, sig=None, genv=()):
         for _ in range(rng.choice([0, 0, 1, 2]) if callable_tys else 0):
             ct = rng.choice(callable_tys)
             rt = fptr_sig(ct)[0]
+            tail = 2 * rng.choice([0, 0, 0, 1, 2, 3])          # plain / tail / musttail / notail
             if rt == "v":
-                insts.append({"row": 74, "ty": ct, "res": None, "has": False})
+                insts.append({"row": 74 + tail, "ty": ct, "res": None, "has": False})
             else:
-                insts.append({"row": 75, "ty": ct, "res": fresh_ident(), "has": True})
+                insts.append({"row": 75 + tail, "ty": ct, "res": fresh_ident(), "has": True})
         # conversions of a reference to a function or a global variable of the module (whatever its type is)
         for a, ty in genv:
             if rng.random() < 0.15:
@@ -235,7 +236,7 @@ def gen_func(rng, max_blocks=4, sig=None, genv=()):
             m = re.fullmatch(r"([VS])(\d+)\((.*)\)", t)
             return "%s%s(i1)" % (m.group(1), m.group(2)) if m else "i1"
         if 30 <= r <= 42: return i["to"]
-        if r == 75: return fptr_sig(t)[0]
+        if 75 <= r <= 81: return fptr_sig(t)[0]
         if r == 23: return pointee(t)
         if r == 25 or r in (43, 44): return t
         if 30 <= r <= 42: return i["to"]
@@ -302,9 +303,9 @@ def gen_func(rng, max_blocks=4, sig=None, genv=()):
                 fl = "F%s!" % rng.choice(["", "", "0"])
             elif 45 <= r <= 50:
                 fl = "F%s!" % ",".join(str(rng.randrange(8)) for _ in range(rng.choice([0, 0, 1, 2, 4])))
-            if r in (74, 75):
+            if 74 <= r <= 81:
                 rt, pts = fptr_sig(t)
-                args = ("T%s!" % rt if r == 75 else "") + "V%s!G%s" % (ref_operand(t), "&".join("%s=%s" % (pt, operand(pt)) for pt in pts))
+                args = ("T%s!" % rt if r % 2 == 1 else "") + "V%s!G%s" % (ref_operand(t), "&".join("%s=%s" % (pt, operand(pt)) for pt in pts))
             elif r < 23:
                 args = fl + "P%s=%s!V%s" % (t, operand(t), operand(t))
             elif r == 23:
